@@ -178,6 +178,13 @@ fn main_anchors(m: &MainIds) -> Vec<String> {
     v.push(m.commit_like_c3.clone());
     v.push(m.describe.clone()); // v1-<n>-g<hex>
     v.push(format!("anything-g{}", &m.merge[..7]));
+    // hex in upper and mixed case: git lower-cases abbreviated ids, also behind `-g`
+    let mixed = |h: &str| h.chars().enumerate().map(|(i, c)| if i % 2 == 0 { c.to_ascii_uppercase() } else { c }).collect::<String>();
+    v.push(format!("anything-g{}", m.merge[..7].to_uppercase()));
+    v.push(format!("v1-9-g{}", mixed(&m.c1[..8])));
+    v.push(format!("x-g{}", m.blob[..7].to_uppercase()));
+    v.push(mixed(&m.side[..7]));
+    v.push(m.c1.to_uppercase());
     v.push(format!("v1-1-g{}", &m.c2[..4])); // describe form with an ambiguous prefix: commits are preferred
     v.push(format!("v1-1-g{}", &m.c3[..4]));
     v.push(format!("x-g{}", &m.blob[..7])); // describe form naming a blob
